@@ -334,6 +334,31 @@ func GenC19(tape *Tape) *C19Prog {
 	g.stmt(1, "start <- 1; return <-ch")
 	g.raw("}")
 	g.raw("")
+	// now and then a very long straight-line function: the generation of exec
+	// closures and the debugger's node tracking must not depend on the size of a body
+	hasLong := tape.Choose(10) == 9
+	if hasLong {
+		g.raw("func long(x int) int {")
+		n := 100 + tape.Choose(160)
+		g.fline["long"] = g.line + 1
+		for i := 0; i < n; i++ {
+			switch i % 5 {
+			case 0, 1:
+				g.stmt(1, fmt.Sprintf("x = (x*3 + %d) %% 1000", 1+i%7))
+			case 2:
+				g.stmt(1, "{ y := x + 1; x += y % 3 }")
+			case 3:
+				g.stmt(1, "if x%2 == 0 { x++ }")
+			case 4:
+				g.stmt(1, "x = pos2(x)")
+			}
+		}
+		g.stmt(1, "return x")
+		g.raw("}")
+		g.raw("")
+		g.raw("func pos2(v int) int { return v + 2 }")
+		g.raw("")
+	}
 	nf := tape.Choose(3)
 	for i := 0; i < nf; i++ {
 		name := fmt.Sprintf("f%d", i)
@@ -349,6 +374,9 @@ func GenC19(tape *Tape) *C19Prog {
 	}
 	g.raw("func main() {")
 	g.stmt(1, fmt.Sprintf("x := %d", 1+tape.Choose(9)))
+	if hasLong {
+		g.stmt(1, "x = long(x)")
+	}
 	g.budget = 10
 	g.block(1, 2+tape.Choose(5), false)
 	if tape.Choose(6) == 5 {
@@ -357,6 +385,9 @@ func GenC19(tape *Tape) *C19Prog {
 	g.stmt(1, "fmt.Println(\"end\", x)")
 	g.raw("}")
 	funcs := append([]string{"add", "safe", "rec", "spawn", "pos", "two", "bump"}, g.funcs...)
+	if hasLong {
+		funcs = append(funcs, "long")
+	}
 	return &C19Prog{Src: g.b.String(), Marks: g.marks, FLine: g.fline, Funcs: funcs}
 }
 
